@@ -11,7 +11,8 @@ import os
 import vlib
 
 PROPS = ['Rangers.Props.C14', 'Rangers.Props.C14E', 'Rangers.Props.C14U', 'Rangers.Props.C14G',
-         'Rangers.Props.C14W', 'Rangers.Props.C14J', 'Rangers.Props.C14T', 'Rangers.Props.C14P']
+         'Rangers.Props.C14W', 'Rangers.Props.C14J', 'Rangers.Props.C14T', 'Rangers.Props.C14P',
+         'Rangers.Props.C14X', 'Rangers.Props.C14M', 'Rangers.Props.C14V']
 DRIVERS = ['C14']
 META = dict(
     level='proof',
